@@ -486,7 +486,7 @@ def c14_suite():
     for b in ("scan", "qscan", "kscan", "qkscan", "substr", "qsubstr", "ksubstr", "qksubstr"):
         out.append((f"%{b}(&a. 1)", "MissingExpectedComma", len(f"%{b}(&a. 1")))
         out.append((f"%let x=%{b.upper()}( a b /*c*/ 2 );", "MissingExpectedComma", len(f"%let x=%{b.upper()}( a b /*c*/ 2 ")))
-    for t in ("%eval(1", "%eval((1+2", "%let x=%eval((1+2", "%sysfunc(abs((1", "%upcase((a", "%str((a", "%nrstr(a(b(c", "%m(a", "%scan(a,1", "%if (a", "%do i=(1", "%do i=1 %to (3", "%eval((1 "):
+    for t in ("%eval(1", "%eval((1+2", "%let x=%eval((1+2", "%sysfunc(abs((1", "%upcase((a", "%str((a", "%nrstr(a(b(c", "%m(a", "%scan(a,1", "%if (a", "%do i=(1", "%do i=1 %to (3", "%eval((1 ", "%eval((\"", "%m((\"", "%if (\"", "%str((\""):
         out.append((t, "MissingExpectedRParen", len(t.encode())))
     return out
 
@@ -505,8 +505,11 @@ def c14_check():
             if not any(e[1] == ek and int(e[2]) == off for e in errs):
                 return text, f"[{kind[0]}/{kind[1]}] omitted delimiter not diagnosed: expected {ek} at byte {off}, errors: {[(e[1], e[2]) for e in errs][:4]}"
             tt = KIND_TOK[ek]
-            if not any(t[2] == tt and int(t[4]) == off and int(t[5]) == off for t in toks):
+            n_rec = sum(1 for t in toks if t[2] == tt and int(t[4]) == off and int(t[5]) == off)
+            if n_rec == 0:
                 return text, f"[{kind[0]}/{kind[1]}] no zero-width {tt} recovery token at byte {off} where the delimiter was expected"
+            if ek == "MissingExpectedRParen" and n_rec != text.count("(") - text.count(")"):
+                return text, f"[{kind[0]}/{kind[1]}] {text.count('(') - text.count(')')} parentheses open at end of input but {n_rec} recovery tokens"
     return None
 
 
